@@ -201,6 +201,10 @@ def judgeOp (L : KV) (LK : List Kind) (att : Bool × Bool) (kj : Bool) (op : Lis
   | ["hold", e] => match entOf e with
       | some _ => if after != before then some "hold:read-changed-state" else none
       | none => some "bad-op"
+  -- concurrent calls of graph.StringKind for one new name must all return the same handle
+  | ["intern", _, _] =>
+      if ret != "interned" then some "graph.StringKind:interning-not-a-function (two handles for one kind name: Kinds.Remove compares handles, Kinds.Add compares names)"
+      else if after != before then some "graph.StringKind:read-changed-state" else none
   -- kind operation outside the guarded domain: only its effect on properties and on the other entity is judged
   | ["kop", e] => match entOf e with
       | some e => first [ propsSame "Node.kinds-op" e, frame "Node.kinds-op" e ]
